@@ -119,6 +119,43 @@ def run(m, rep, tier):
     _ae = rep.rule('M5', 'every store / effectful call made with assertions enabled is also made by the NDEBUG build (no work inside assert())', floor=1)
     check_assert_effects(m, _ae, ('memory.c', 'memory.h'))
 
+    # ---- M6: shared / weak swap exchanges the bookkeeping pointers on every path ---------------------------------
+    # which block an object refers to is the pointer in its own slot; "they manage the same memory" (both report NULL for an
+    # ownerless block) is not "they refer to the same block"
+    m6 = rep.rule('M6', 'shared / weak swap exchanges the two bookkeeping pointers on every path on which they may differ', floor=1)
+    for _nm in ('cstl_shared_ptr_swap', 'cstl_weak_ptr_swap'):
+        f6 = m.ifn(_nm)
+        if f6 is None:
+            continue
+        pv6 = Prover(f6)
+
+        def slot_store(root):
+            return [s2 for s2 in f6.all_insts() if s2.op == 'store' and resolve_addr(f6, s2.o[1]).root == root and resolve_addr(f6, s2.o[1]).fsteps[-1:] == ((GP, 'ptr'),)
+                    and resolve_addr(f6, s2.o[1]).steps[:1] == ('data',)]
+        s0, s1 = slot_store('$0'), slot_store('$1')
+        if not s0 or not s1:
+            m6.violation(_nm, 'the bookkeeping pointer of one of the two objects is never written', floc(m, f6), {})
+            continue
+        bad6 = []
+        for r in f6.returns():
+            if any(f6.dominates(a_, r) for a_ in s0) and any(f6.dominates(b_, r) for b_ in s1):
+                continue
+            facts = pv6.facts_at(r)
+            same = ('eq', '$0', '$1') in facts or ('eq', '$1', '$0') in facts
+            for (op, x, y) in facts:
+                xi, yi = (f6.get(x) if isinstance(x, str) else None), (f6.get(y) if isinstance(y, str) else None)
+                if op == 'eq' and xi is not None and yi is not None and xi.op == 'load' and yi.op == 'load':
+                    ax, ay = resolve_addr(f6, xi.o[0]), resolve_addr(f6, yi.o[0])
+                    if {ax.root, ay.root} == {'$0', '$1'} and ax.steps[:1] == ('data',) and ay.steps[:1] == ('data',) and ax.fsteps[-1:] == ((GP, 'ptr'),) == ay.fsteps[-1:]:
+                        same = True
+            if not same:
+                bad6.append('a path to the return at %s exchanges nothing although the two objects may refer to different bookkeeping blocks (the test that '
+                            'skips the exchange compares something else, e.g. the managed memory)' % r.loc())
+        if bad6:
+            m6.violation(_nm, '; '.join(sorted(set(bad6))[:2]), floc(m, f6), {})
+        else:
+            m6.ok(_nm, 'both slots written on every path (or the slots are known to hold the same pointer)', floc(m, f6))
+
 
 def check_balance(m, f, roles, rule):
     """typestate: auto = frozenset of events; memory model tracks the parameter slots"""
